@@ -12,7 +12,8 @@ THEOREMS = ["H5V.Props.C16." + t for t in [
     "C16_resolve_partial", "C16_resolve_fixed", "C16_witness_prefixed_xmlns", "C16_witness_dup_decl",
     "C16_attrs_sublist", "C16_attr_dropped_only_if", "C16_isDeclLike_is_decl", "C16_isDeclLike_fixed",
     "C16_tok_dropped_only_if_partial", "C16_tok_dropped_only_if_fixed", "C16_tok_no_dup_qname_fixed",
-    "C16_witness_item14", "C16_witness_dup_decl_reversed"]]
+    "C16_witness_item14", "C16_witness_dup_decl_reversed",
+    "C16_splitQName_split", "C16_splitQName_some", "C16_splitQName_none"]]
 TRUSTED = [
     "Lean 4 kernel; axioms ⊆ {propext, Classical.choice, Quot.sound} (audited per run)",
     "hand-written model lean/H5V/Model/XmlTB.lean of xml5ever/src/tree_builder/mod.rs (token level) and of the "
@@ -355,6 +356,8 @@ def oracle(line, out):
                     fam = FAM_PXMLNS
                 elif mode == "src" and any(m[2] == (n[2] if n[0] is None else n[0] + ":" + n[2]) for m, _ in allattrs[:pos]):
                     fam = FAM_ITEM14
+                elif ns_family(toks) != FAM_OTHER_NS:
+                    fam = ns_family(toks)
                 else:
                     fam = FAM_OTHER_ATTR
                 return fam + "element #%d %s lost %s=%r although no earlier attribute has that expanded name" % (
